@@ -90,6 +90,7 @@ fn main() {
         "auth_session" => auth::session(&args),
         "remote_proxy" => auth::proxy(&args),
         "node_sessions" => auth::sessions(&args),
+        "node_commit" => auth::commit(&args),
         "elect" => cluster::elect(&args),
         "elect_search" => cluster::elect_search(&args),
         "frame_len" => cluster::frame_len(&args),
